@@ -11,3 +11,4 @@ import Scfg.Model.Queries
 import Scfg.Model.Iter
 import Scfg.Spec.GraphDefs
 import Scfg.Spec.IterSpec
+import Scfg.Model.Bytecode
